@@ -614,6 +614,16 @@ func (self *Analyzer) importItem(node pAst.ImportStatement) ast.AnalyzedImport {
 			if prev := self.currentModule.addVar(item.Ident, NewVar(ast.NewUnknownType(), item.Span, ImportedVariableOriginKind, false), false); prev != nil {
 				self.error(fmt.Sprintf("Name '%s' already exists in current scope", item.Ident), nil, item.Span)
 			}
+		} else if (item.Kind == pAst.IMPORT_KIND_TYPE && imported.Type == nil) ||
+			(item.Kind == pAst.IMPORT_KIND_TEMPLATE && imported.Template == nil) ||
+			(item.Kind == pAst.IMPORT_KIND_TRIGGER && imported.Trigger == nil) ||
+			(item.Kind == pAst.IMPORT_KIND_NORMAL && imported.Type == nil) {
+			// The host knows the name, but what it stands for is not of the kind which this import asks for
+			self.error(
+				fmt.Sprintf("'%s' in module '%s' is not a %s", item.Ident, node.FromModule, entityErrNameFromImportKind(item.Kind)),
+				nil,
+				item.Span,
+			)
 		} else {
 			// Type and templ imports need special action: only add the type and filter out this import
 			switch item.Kind {
